@@ -230,16 +230,19 @@ class RemoveInitializersFromInputsPass(ir.passes.InPlacePass):
 class AddInitializersToInputsPass(ir.passes.InPlacePass):
     """Add initializers to inputs.
 
-    This pass finds all initializers and adds them to the graph.inputs list if they are not already present.
+    This pass finds all initializers of the main graph and adds them to the graph.inputs list
+    if they are not already present. Subgraphs are left alone: the inputs of a control flow
+    body are fixed by the operator (an ``If`` branch has none), so adding initializers to
+    them would make the model invalid.
     """
 
     def call(self, model: ir.Model) -> ir.passes.PassResult:
         count = 0
-        for graph in model.graphs():
-            inputs_set = set(graph.inputs)
-            for initializer in graph.initializers.values():
-                if initializer not in inputs_set:
-                    graph.inputs.append(initializer)
-                    count += 1
+        graph = model.graph
+        inputs_set = set(graph.inputs)
+        for initializer in graph.initializers.values():
+            if initializer not in inputs_set:
+                graph.inputs.append(initializer)
+                count += 1
         logger.info("Added %s initializers to graph inputs", count)
         return ir.passes.PassResult(model, modified=bool(count))
